@@ -308,72 +308,10 @@ theorem Rules.validImpl {T : TsDoc} (R : Rules T) {t : TypeDef} (ht : t ∈ Vali
 
 /-! ## RecursingDirective -/
 
-theorem specReaches_trans {S : Schema} {a b c : Node} (h1 : SpecReaches S a b) (h2 : SpecReaches S b c) :
-    SpecReaches S a c := by
-  induction h1 with
-  | step h => exact .cons h h2
-  | cons h _ ih => exact .cons h (ih h2)
-
-theorem directivesInType_sub_dirsWithin (t : TypeDef) : ∀ d ∈ directivesInType t, d ∈ dirsWithin t := by
-  intro d hd
-  unfold directivesInType at hd
-  unfold dirsWithin fieldsOfT valuesOfT inputsOfT isObjOrIface
-  cases hk : t.kind <;> rw [hk] at hd <;> simp only [List.mem_append, List.mem_flatMap] at hd ⊢
-  case object =>
-    rcases hd with h | ⟨a, ha, h⟩
-    · simp [h]
-    · exact Or.inl (Or.inl (Or.inr ⟨a, by simpa using ha, Or.inl h⟩))
-  case interface =>
-    rcases hd with h | ⟨a, ha, h⟩
-    · simp [h]
-    · exact Or.inl (Or.inl (Or.inr ⟨a, by simpa using ha, Or.inl h⟩))
-  all_goals simp_all
-
-/-- an edge of the graph the code explores is a path of one or two references of the specification's graph -/
-theorem specReaches_of_edge {T : TsDoc} (hut : uniqueTypeNames T = true) (hud : uniqueDirectiveNames T = true)
-    {n m : Name} (h : m ∈ succNames T n) : SpecReaches ⟨T⟩ (.dir n) (.dir m) := by
-  unfold succNames at h
-  cases hd : lastDirectiveDef? T n with
-  | none => rw [hd] at h; cases h
-  | some d =>
-    rw [hd] at h
-    obtain ⟨s, hs, rfl⟩ := List.mem_map.mp h
-    simp only [dirSuccessors, List.mem_filterMap, List.mem_flatMap, List.mem_append] at hs
-    obtain ⟨dir, ⟨a, ha, hdir⟩, hl⟩ := hs
-    have hsn : s.name = dir.name := by
-      unfold lastDirectiveDef? at hl
-      simpa using List.find?_some hl
-    rw [lastDirectiveDef_eq_directiveDef hud] at hd
-    have hrefs : ∀ x, x ∈ (d.args.flatMap fun a => a.dirs.map (fun x => Node.dir x.name) ++ [Node.ty a.ty.unwrapped]) →
-        x ∈ refs ⟨T⟩ (.dir n) := by
-      intro x hx; simp only [refs, hd]; exact hx
-    rcases hdir with h1 | h2
-    · apply SpecReaches.step
-      apply hrefs
-      simp only [List.mem_flatMap, List.mem_append, List.mem_map]
-      exact ⟨a, ha, Or.inl ⟨dir, h1, by rw [hsn]⟩⟩
-    · cases ht : lastTypeDef? T a.ty.unwrapped with
-      | none => rw [ht] at h2; cases h2
-      | some t =>
-        rw [ht] at h2
-        dsimp only at h2
-        rw [lastTypeDef_eq_typeDef hut] at ht
-        apply SpecReaches.cons (b := .ty a.ty.unwrapped)
-        · apply hrefs
-          simp only [List.mem_flatMap, List.mem_append, List.mem_map]
-          exact ⟨a, ha, Or.inr (by simp)⟩
-        · apply SpecReaches.step
-          simp only [refs, ht, List.mem_append, List.mem_map]
-          exact Or.inl ⟨dir, directivesInType_sub_dirsWithin t dir h2, by rw [hsn]⟩
-
-theorem specReaches_of_reaches {T : TsDoc} (hut : uniqueTypeNames T = true) (hud : uniqueDirectiveNames T = true)
-    {a b : Name} (h : Reaches T a b) : SpecReaches ⟨T⟩ (.dir a) (.dir b) := by
-  induction h with
-  | step h1 => exact specReaches_of_edge hut hud h1
-  | cons h1 _ ih => exact specReaches_trans (specReaches_of_edge hut hud h1) ih
-
-/-- If no directive definition transitively references itself (the specification's relation, which follows
-    more edges than the code), `RecursingDirective` is never pushed. -/
+/-- If no directive definition transitively references itself (the specification's relation),
+    `RecursingDirective` is never pushed: an edge of the graph the code explores is a path of the specification's
+    graph (`specReaches_of_edge`, Lemmas/CheckTsRecSpec.lean — since fix 2e4a65e along the types of input-object
+    fields). The converse holds too: `C05_recursion_exact` (Props/C05.lean). -/
 theorem C05_complete_recursion (T : TsDoc) (hut : uniqueTypeNames T = true) (hud : uniqueDirectiveNames T = true)
     (hrec : NoSpecRecursion T) : ∀ d ∈ ValidTs.directiveDefs T, checkDirectiveRecursion T d = [] := by
   intro d hd
